@@ -376,6 +376,11 @@ func runC08(s *kernel.Sim, enumerate bool) {
 		old["flows/f1.yaml"] += strings.Repeat("# "+strings.Repeat("padding ", 15)+"\n", 11000)
 		s.Knobs["large_file"] = true
 	}
+	// one sampled run in six: a configuration file that exists and is empty
+	if !enumerate && len(old) > 0 && tp.Chance(1, 6) {
+		old["gateway_config.yaml"] = ""
+		s.Knobs["empty_file"] = true
+	}
 	// history: in a quarter of the sampled runs an accepted /apply_flows that removed
 	// a flow file precedes the judged update on the same gateway; "before" is then
 	// the configuration that update left
